@@ -260,6 +260,43 @@ def stage3(rep, driver, np_t, ge_t, cases, res, stats):
     return mcmds + tcmds, mres + tres
 
 
+def stage4(rep, driver, cases, res, stats):
+    """policy-level parser model: lex + parse_policy_toks / parse_policyset_toks vs parse_policy_or_template /
+       parse_policyset on EVERY policy / set text (accepted and rejected): accept/reject and the template bodies
+       (annotations in key order, effect, the three scope constraints incl. slots, folded condition)"""
+    idx = [i for i, c in enumerate(cases) if c["kind"] in ("policy", "set") and ("accepted" in res[i])]
+    mcmds = [[Sym("c05_parse_policy" if cases[i]["kind"] == "policy" else "c05_parse_policyset"), Str(cases[i]["text"])] for i in idx]
+    mres = fw.run_model(driver, mcmds)
+    st = {"texts": len(idx), "both_accept": 0, "both_reject": 0, "mismatch": 0}
+    for i, m in zip(idx, mres):
+        c, r = cases[i], res[i]
+        if r["accepted"]:
+            if c["kind"] == "policy":
+                want = sx.parse(r["ast"])[:8]
+            else:
+                want = [sx.parse(a)[:8] for a in r["ast"]]
+            ok = isinstance(m, list) and len(m) == 2 and m[0] == "ok" and m[1] == want
+            if ok:
+                st["both_accept"] += 1
+        else:
+            ok = m in ("reject", "lexerr")
+            if ok:
+                st["both_reject"] += 1
+        if not ok:
+            st["mismatch"] += 1
+            if st["mismatch"] <= 8:
+                rep.violation({"property": "C05", "kind": "policy parser: model and implementation differ",
+                               "model_function": "Lexer.lex_text + ParsePolicy.parse_policy_toks / parse_policyset_toks",
+                               "rust_entry_point": "parser::parse_policy_or_template / parse_policyset",
+                               "input": {"kind": c["kind"], "text": c["text"]}, "stream": c["stream"],
+                               "rust": {"accepted": r["accepted"], "ast": r.get("ast"), "error": r.get("error")},
+                               "model": sx.dump(m) if not isinstance(m, str) else str(m),
+                               "theorem_or_correspondence": "the policy-level parser model is tied to the code only through this comparison"},
+                              no_failing_input=True)
+    stats["policy_parser_stage"] = st
+    return mcmds, mres
+
+
 def correspondence(rep, rng, tier, harness, driver, accepted, cases=None, res=None):
     table = fw.run_rust(harness, [{"cmd": "c05_escape_table"}])[0]
     if "np" not in table:
@@ -269,8 +306,9 @@ def correspondence(rep, rng, tier, harness, driver, accepted, cases=None, res=No
     c1, r1 = stage1(rep, rng, tier, harness, driver, np_t, ge_t, stats)
     c2, r2 = stage2(rep, harness, driver, np_t, ge_t, accepted, stats)
     c3, r3 = stage3(rep, driver, np_t, ge_t, cases or [], res or [], stats)
-    stats["model_cases"] = len(c1) + len(c2) + len(c3)
+    c4, r4 = stage4(rep, driver, cases or [], res or [], stats)
+    stats["model_cases"] = len(c1) + len(c2) + len(c3) + len(c4)
     pick = list(range(0, len(c3), max(1, len(c3) // 20)))[:20]
-    xs = c1[:15] + c2[:15] + [c3[i] for i in pick]
-    nx = fw.coq_crosscheck(xs, r1[:15] + r2[:15] + [r3[i] for i in pick], TAG)
+    xs = c1[:15] + c2[:15] + [c3[i] for i in pick] + c4[:10]
+    nx = fw.coq_crosscheck(xs, r1[:15] + r2[:15] + [r3[i] for i in pick] + r4[:10], TAG)
     return stats, nx
